@@ -56,8 +56,7 @@ def histories(C, tier):
 
 def run(tier):
     C = Check('C09', tier)
-    C.prove('Properties/C09.v')
-    C.cov['tie']['eo_writer.py'] = 'correspondence-only (class not translated by py2coq; hand-written model Model/Writer.v in statement order)'
+    C.prove('Properties/C09.v', units=['G_eo_numeric_limits', 'G_number_encoding_utils', 'G_string_encoding_utils', 'G_eo_writer'], bridges={'Bridge/B_writer.v': ['G_eo_numeric_limits', 'G_number_encoding_utils', 'G_string_encoding_utils', 'G_eo_writer']})
     check_cp1252(C)
     wmod = load_leaf(C.scratch.src, 'eolib.data.eo_writer')
     hs, nb = histories(C, tier)
